@@ -14,6 +14,14 @@ CHECKS = {
          "299 (quick) programs of 2-3 threads over a 17-call Broker alphabet are run on the real Broker under every schedule within the preemption bound. The race detector runs inside the controlled scheduler (hand-offs carry no happens-before edge; primitive models re-create the real edges), so a race is attributed to a concrete replayable schedule instead of depending on timing. Delivery counts of every Send are checked against the call/return intervals of the registry calls, and the quiescent private state plus all return values must equal those of a sequential order consistent with real-time order.",
          "Go race detector (no false positives; complete only for the explored synchronisation orders); bounds: <=3 threads, <=2 calls each, preemption bound 2/1 quick, 3/2 thorough; reflective dump of the Broker's private state as the state-equality oracle.",
          "DESIGN.md §3 C04"),
+ "C01": ("stateless model checking of the real Send fan-out under a controlled scheduler over a bounded-exhaustive family of pipeline configurations and registration histories; brute-force traversal matching oracle on event-pointer identity",
+         "709 (quick) configurations - every reachable behaviour vector of one pipeline with 2..5 nodes, two pipelines x sharing patterns, 3-4 pipelines over 1-3 event types, registration histories - are each run under every schedule within the preemption bound and every sync.Map.Range order, with and without cancellation. The recorded node invocations must decompose into exactly one in-order traversal per registered pipeline of the sent type with the exact event pointers handed from node to node.",
+         "Recording nodes are harness code (norace logs); bounds per scenario are in the evidence samples; configuration space is the enumerated family, not all of 0..4 x 1..3 x 2..5.",
+         "DESIGN.md §3 C01"),
+ "C02": ("stateless model checking of Send under a controlled scheduler for outcome-vector x threshold scenarios, plus explicit-state BFS of the threshold API against a reference model",
+         "Every multiset of up to 3 pipeline end kinds x threshold pairs (full square for <=2 pipelines, boundary pairs for 3) x cancellation mode is run under every schedule within the bound; Status ids, sink sub-multiset, warning identity, completes+warnings=pipelines, the iff-direction of the error and errors.Is(ctx.Err()) are checked on each execution. The setter/getter contract is decided by BFS over all call histories up to depth 4 (6 thorough) on two event types.",
+         "The traversal ends used by the oracle are reconstructed from the nodes' own log (C01 matching).",
+         "DESIGN.md §3 C02"),
 }
 
 NOT_YET = "check not built yet in this session (work in progress; see DESIGN.md for the plan)"
